@@ -6,6 +6,7 @@ package harness
 import (
 	"encoding/json"
 	"fmt"
+	"github.com/trustbloc/sidetree-go/pkg/versions/1_0/operationparser"
 	"testing"
 
 	"github.com/trustbloc/sidetree-go/pkg/api/operation"
@@ -38,6 +39,12 @@ type histStep struct {
 func runHistory(t *rapid.T, o historyOpts, st *propStats) {
 	p := genHistoryProtocol(t)
 	stack := newStack(p)
+	if rapid.Bool().Draw(t, "rejectingSubmissionValidators") {
+		// anchored operations are past submission: what the parser's submission-time validators (anchoring time, anchor
+		// origin) would say about them now must not matter to the applier
+		stack = newStack(p, operationparser.WithAnchorTimeValidator(&recordingTimeValidator{err: operationparser.ErrOperationExpired}),
+			operationparser.WithAnchorOriginValidator(rejectingOriginValidator{}))
+	}
 	// initial state: empty, carrying operation lists that must be handed through unchanged
 	var pub, unpub []*operation.AnchoredOperation
 	for i, n := 0, rapid.IntRange(0, 2).Draw(t, "npub"); i < n; i++ {
